@@ -9,17 +9,24 @@ import (
 	"crypto/sha256"
 	"encoding/json"
 	"fmt"
+	"io"
 	"os"
 	"path/filepath"
 	"runtime"
 	"strings"
 	"testing"
 
+	"github.com/bbva/qed/balloon/hyper"
+	"github.com/bbva/qed/consensus"
 	"github.com/bbva/qed/protocol"
+	"github.com/bbva/qed/storage"
+	"github.com/bbva/qed/storage/bplus"
 	"github.com/bbva/qed/verifx/cx"
 	"github.com/bbva/qed/verifx/ev"
 	"github.com/bbva/qed/verifx/fx"
 	"github.com/bbva/qed/verifx/nx"
+	"github.com/bbva/qed/verifx/sx"
+	"github.com/hashicorp/raft"
 )
 
 // ---------------------------------------------------------------- real clusters
@@ -32,6 +39,25 @@ import (
 func clusterScenarios(depth int, trailing []uint64, bulks bool) []cx.Scenario {
 	var out []cx.Scenario
 	var gen func(cur []cx.Event, adds int, down bool, stops, snaps, transfers int)
+	// disaster recovery of one server: add.. backup add.. rebuild add (a follower's store restored from the
+	// leader's backup, empty raft directory, joining again)
+	for _, pre := range [][]int{{1}, {2, 1}} {
+		for _, mid := range [][]int{{}, {1}} {
+			var evs []cx.Event
+			for _, k := range pre {
+				evs = append(evs, cx.Event{Kind: "add", K: k})
+			}
+			evs = append(evs, cx.Event{Kind: "backup"})
+			for _, k := range mid {
+				evs = append(evs, cx.Event{Kind: "add", K: k})
+			}
+			evs = append(evs, cx.Event{Kind: "rebuild"}, cx.Event{Kind: "add", K: 1})
+			out = append(out, cx.Scenario{Events: evs, TrailingLogs: 10240})
+			if len(mid) > 0 {
+				out = append(out, cx.Scenario{Events: append(append([]cx.Event{}, evs...), cx.Event{Kind: "transfer"}, cx.Event{Kind: "add", K: 1}), TrailingLogs: 10240})
+			}
+		}
+	}
 	gen = func(cur []cx.Event, adds int, down bool, stops, snaps, transfers int) {
 		if len(cur) > 0 && adds > 0 && (stops > 0 || snaps > 0 || transfers > 0) {
 			for _, t := range trailing {
@@ -341,9 +367,128 @@ func TestC05(t *testing.T) {
 	if replay(t, r, reps, maxRep, tags) {
 		return
 	}
+	if r.Mine(0) {
+		concurrentClients(r)
+	}
 	conformance(r, confDepth(r))
 	fx.BFS(r, reps, maxRep, b, depth, tags, runtime.NumCPU())
 	r.Finish()
+}
+
+// ---------------------------------------------------------------- concurrent clients (controlled scheduler)
+//
+// Two clients call the real RaftNode.AddBulk / Add on one node at the same time. raft is replaced by what
+// it guarantees here: proposals are applied one at a time (a lock around the real Apply); the lock is a
+// scheduling point of the controlled scheduler, and ALL interleavings with <= 2 preemptions run. A bulk
+// must get consecutive versions in request order whatever the other client does.
+
+type mstore struct{ *bplus.BPlusTreeStore }
+
+func (mstore) FetchSnapshot(w io.WriteCloser, a, b uint64, v storage.ValidateF) error { return nil }
+func (mstore) LoadSnapshot(io.ReadCloser) error                                       { return nil }
+func (mstore) LastWALSequenceNumber() uint64                                          { return 0 }
+
+var clientCache *hyper.BatchCache
+
+func concurrentClients(r *ev.Run) {
+	type scen struct {
+		Bulk    int   `json:"bulkOfClient1"`
+		Singles []int `json:"requestsOfClient2"`
+	}
+	scs := []scen{{2, []int{1}}, {3, []int{1, 1}}, {300, []int{1, 1}}, {600, []int{2}}}
+	if !r.Thorough() {
+		scs = scs[:3]
+	}
+	for _, sc := range scs {
+		sc := sc
+		body := func(x *sx.Exec) {
+			var node *consensus.RaftNode
+			var raftLock sx.Mutex
+			var keys [][]byte
+			sx.Setup(func() {
+				if clientCache == nil {
+					clientCache = hyper.NewBatchCache(hyper.DefaultBatchLevels)
+				}
+				var err error
+				node, err = consensus.VerifNewBareNode("n0", mstore{bplus.NewBPlusTreeStore()}, clientCache, make(chan *protocol.Snapshot, 4096))
+				if err != nil {
+					panic(err)
+				}
+				idx := uint64(0)
+				node.VerifSetHooks(&consensus.VerifHooks{Propose: func(data []byte) (interface{}, error) {
+					raftLock.Lock() // raft applies committed entries one at a time
+					defer raftLock.Unlock()
+					idx++
+					return node.Apply(&raft.Log{Index: idx, Term: 1, Type: raft.LogCommand, Data: data}), nil
+				}})
+			})
+			var wg sx.WaitGroup
+			issue := func(name string, sizes []int) {
+				wg.Add(1)
+				sx.GoNamed(name, false, func() {
+					defer wg.Done()
+					for ri, k := range sizes {
+						var evs [][]byte
+						for j := 0; j < k; j++ {
+							e := []byte(fmt.Sprintf("%s-request%d-event%d", name, ri, j))
+							evs = append(evs, e)
+							h := sha256.Sum256(e)
+							keys = append(keys, h[:])
+						}
+						snaps, err := node.AddBulk(evs)
+						if err != nil || len(snaps) != k {
+							x.Fail("an insertion fails while another client inserts", fmt.Sprint(err))
+							return
+						}
+						for j, s := range snaps {
+							h := sha256.Sum256(evs[j])
+							if s.Version != snaps[0].Version+uint64(j) {
+								x.Fail("a bulk does not receive consecutive versions in request order when another client inserts at the same time", map[string]interface{}{"client": name, "position": j, "first": snaps[0].Version, "got": s.Version})
+								return
+							}
+							if string(s.EventDigest) != string(h[:]) {
+								x.Fail("a snapshot does not carry the digest of the event it was issued for", name)
+								return
+							}
+						}
+						x.Observe(fmt.Sprintf("%s:%d@%d", name, k, snaps[0].Version))
+					}
+				})
+			}
+			issue("client1", []int{sc.Bulk})
+			issue("client2", sc.Singles)
+			wg.Wait()
+			total := sc.Bulk
+			for _, k := range sc.Singles {
+				total += k
+			}
+			sx.Setup(func() {
+				if v := node.VerifBalloon().Version(); v != uint64(total) {
+					x.Fail("after concurrent insertions the current version is not the number of accepted events", v)
+				}
+				node.VerifCloseBare()
+				if !clientCache.VerifReset(keys) {
+					clientCache = nil
+				}
+			})
+		}
+		e := &sx.Explorer{MaxBound: 2, MaxSteps: 2000, Body: body}
+		e.OnFailure = func(x *sx.Exec, f sx.Failure, schedule []int) {
+			r.Violation("[C05] "+f.Sig, map[string]interface{}{"scenario": sc, "schedule": append([]int{}, schedule...), "detail": f.Detail})
+		}
+		e.Run()
+		if okr, badr := e.ValidateReplays(); badr > 0 {
+			r.Violation("HARNESS: NONDETERMINISM: an explored schedule does not reproduce when replayed", nil)
+		} else {
+			r.Validated(okr)
+		}
+		r.Eval(e.Execs)
+		r.Distinct(fmt.Sprint("concurrent clients ", sc))
+		for k := range e.Outcomes {
+			r.Outcome("concurrent clients " + k)
+		}
+		fmt.Printf("[c05] concurrent clients %v: execs=%d points=%d bound=%d outcomes=%d failures=%v\n", sc, e.Execs, e.PointsTotal, e.BoundCompleted, len(e.Outcomes), e.Failures)
+	}
 }
 
 func clusterDepth(r *ev.Run) int {
